@@ -16,8 +16,9 @@ def green(pid):
     if not os.path.exists(ev):
         return False, "check exists but has not completed a clean run on the current tree yet"
     e = json.load(open(ev))
-    bad = [q for q in e["coverage"].get("queries", []) if q.get("status") in ("violation", "unknown", "error", "mismatch", "vacuous")
-           and q.get("required", True)]
+    # (a thorough-tier query the solver did not decide is inconclusive, not a failure: see run.py)
+    fatal = ("violation", "error", "mismatch", "vacuous") + (() if e.get("tier") == "thorough" else ("unknown",))
+    bad = [q for q in e["coverage"].get("queries", []) if q.get("status") in fatal and q.get("required", True)]
     if e.get("violations") or bad:
         return False, "check not yet clean on the current tree (under construction)"
     return True, ""
